@@ -47,6 +47,7 @@ var c04Kinds = []string{
 	"restart-recurring-image", // new DB object; the application checkpointed (mode) and refilled the WAL past the old cursor so that the frame AT the old cursor carries the same page number and page image as before (a one-row status toggle), in a new generation
 	"reopen-recurring-image",  // same, through Close/Open of the same DB object
 	"live-app-ckpt",           // litestream RUNNING: after its own checkpoint (read mark 0) and a sync to the WAL end, the application commits, checkpoints (mode) and commits again
+	"restart-meta-removed-listing-fault", // new DB object, meta directory removed offline, AND the replica's level-0 listing fails once when the new process first initialises (the database-behind-replica check cannot run)
 	"runtime-reset-ahead",     // ResetLocalState on the live object while the local level-0 chain is AHEAD of the replica (a local sync not yet uploaded) and litestream's own checkpoint (mode) has reset the WAL since: the re-fetched baseline is older than the in-memory cursor
 }
 
@@ -351,7 +352,7 @@ func runC04(rc *Recorder, dir string, rng *rand.Rand, idx int) error {
 		if err := w.ldb.Open(); err != nil {
 			return fmt.Errorf("reopen same object: %w", err)
 		}
-	case "restart-idle", "restart-writes", "restart-ckpt", "restart-wal-removed", "restart-db-replaced", "restart-meta-removed", "restart-db-behind":
+	case "restart-idle", "restart-writes", "restart-ckpt", "restart-wal-removed", "restart-db-replaced", "restart-meta-removed", "restart-meta-removed-listing-fault", "restart-db-behind":
 		if err := w.ldb.Close(ctx); err != nil {
 			return fmt.Errorf("close before disturbance: %w", err)
 		}
@@ -399,6 +400,12 @@ func runC04(rc *Recorder, dir string, rng *rand.Rand, idx int) error {
 				return err
 			}
 			os.RemoveAll(w.ldb.MetaPath())
+		case "restart-meta-removed-listing-fault":
+			if err := away(); err != nil {
+				return err
+			}
+			os.RemoveAll(w.ldb.MetaPath())
+			w.flakyL0Lists = 1
 		}
 		w.ldb = w.newLitestream()
 		if err := w.ldb.Open(); err != nil {
